@@ -77,6 +77,7 @@ pub fn dispatch(ctx: &mut Ctx) -> bool {
         "C14" => {
             c14::run(ctx);
             c14::voicing_switches(ctx);
+            c14::moving_spectrum(ctx);
             c14::end_to_end(ctx);
         }
         #[cfg(feature = "c15")]
